@@ -43,6 +43,24 @@ def observe(name):
                 ur = 0
             rec["view"] = {"name": m.get_name(), "ncarbon": nc, "elemAt": elems, "ringC": int(self.ring_c), "uronic": ur}
             rec["chains"] = [[a, b] for a, b in self.side_chains]
+            rec["offset"] = len(m.ring_info) - 1
+            import glyles.glycans.mono.monomer as mono
+            orig_ts = mono.Monomer.to_smiles
+            marked = []
+
+            def ts(self_, *a, **k):
+                r = orig_ts(self_, *a, **k)
+                marked.append(r)
+                return r
+            mono.Monomer.to_smiles = ts
+            try:
+                r = orig_assemble(self)
+            finally:
+                mono.Monomer.to_smiles = orig_ts
+            if marked and "".join("".join(x) for x in rec["chains"]):
+                rec["marked"] = marked[0]
+                rec["final"] = self.monomer.smiles
+            return r
         return orig_assemble(self)
 
     def react(self, names, types):
@@ -102,3 +120,27 @@ def run(rep, tier, driver, names):
             if bad <= 3:
                 rep.broken.append("reactor model side_chains differ on %r: model %r vs code %r" % (nm, [c for c in a["chains"] if c != ["", ""]], [c for c in o["chains"] if c != ["", ""]]))
     rep.extra["reactor_model"] = stats
+    # the string half of assemble_chains: Model text against the code's new residue SMILES, and the graft certificate
+    areqs, akeep = [], []
+    for nm, o in zip(names, obs):
+        if "marked" in o and "final" in o:
+            areqs.append({"op": "assemble", "marked": o["marked"], "chains": o["chains"], "offset": max(0, o.get("offset", 0)), "final": o["final"]})
+            akeep.append((nm, o))
+    aans = driver.ask_many(areqs)
+    a_stats = {"compared": 0, "identical_text": 0, "certified_as_graft_of_the_fragments": 0, "deoxy_chains (outside the certificate)": 0, "uncertified_samples": []}
+    abad = 0
+    for (nm, o), a in zip(akeep, aans):
+        a_stats["compared"] += 1
+        if a.get("text") == o["final"]:
+            a_stats["identical_text"] += 1
+        else:
+            abad += 1
+            if abad <= 3:
+                rep.broken.append("assemble model text differs on %r: model %r vs code %r (marked %r)" % (nm, a.get("text"), o["final"], o["marked"]))
+        if a.get("certified"):
+            a_stats["certified_as_graft_of_the_fragments"] += 1
+        elif any(c[0] == "H" for c in o["chains"]):
+            a_stats["deoxy_chains (outside the certificate)"] += 1
+        elif len(a_stats["uncertified_samples"]) < 8:
+            a_stats["uncertified_samples"].append(nm)
+    rep.extra["assemble_model"] = a_stats
